@@ -190,6 +190,10 @@ fn settings_menu(dst: u8, rich: bool) -> Vec<Setting> {
         Setting::mods(ModSpec::Classic(None)),
         Setting { rate: Some(1.2), od: Some((9.1, false)), ..Setting::nm() },
     ];
+    if dst == 3 {
+        v.push(Setting::mods(ModSpec::HoIn(None)));
+        v.push(Setting::mods(ModSpec::Invert));
+    }
     if rich {
         v.push(Setting::bits(settings::EZ | settings::HT));
         v.push(Setting { lazer: Some(false), ..Setting::mods(ModSpec::Classic(None)) });
